@@ -3,6 +3,7 @@ package main
 import (
 	"encoding/json"
 	"fmt"
+	"os"
 
 	"github.com/M2MGateway/go-smpp/pdu"
 )
@@ -12,7 +13,11 @@ func init() { corrTable["C20"] = corrC20 }
 func corrC20(r *Run) {
 	r.Import("Model.Flags")
 	r.Rule = "octet codecs: all 256 octets per codec (exhaustive) + random unnormalised structs for the encoders; " +
-		"non-trivial = distinct (codec, input) pairs other than octet 0"
+		"absolute time strings: the full product of boundary values of every component (year 00/01/96/99, every month, day 1/28-31, hour 0/23, " +
+		"minute and second 0/59, tenth 0/9, offset 0/1/48, both signs; impossible dates included as malformed input) + random valid strings + a malformed stream; " +
+		"instants: both ends of the representable local range in each of the 97 zones, leap days, random interior, a few far outside; " +
+		"periods: unit boundaries +-0.1 s, dense low grid, coarse grid over the whole range, random; " +
+		"non-trivial = distinct op lines other than octet 0 / the empty string"
 	// --- direct tests on the implementation, exhaustive over octets
 	for b := 0; b < 256; b++ {
 		var e pdu.ESMClass
@@ -69,5 +74,11 @@ func corrC20(r *Run) {
 		if i < 2 {
 			r.Sample(map[string]interface{}{"codec": "esm_class encoder", "struct": fmt.Sprintf("%+v", e)})
 		}
+	}
+	// --- the time half: pdu.Time / pdu.Duration (c20_time.go)
+	c := corrC20Time(r)
+	// --- thorough: the same op lines through the extracted OCaml model (c20_extract.go)
+	if !r.Quick || os.Getenv("VERIF_EXTRACTED") == "1" {
+		c20ExtractedDiff(r, c)
 	}
 }
